@@ -23,7 +23,7 @@ HARNESSES = [
 ]
 GROUPS = {"fan": "(check_fan pinned)", "sess": "check_sess", "cpub": "check_cpub"}
 EXPLAIN = {"fan": "(explain_fan pinned)", "sess": "explain_sess", "cpub": "explain_cpub"}
-CASES = {"quick": 400, "thorough": 6000}
+CASES = {"quick": 400, "thorough": 4000}
 RULE = ("cases: fan = populations of 2-5 raw clients (1-3 subscriptions each over 14 literal/+/# filters, QoS 0/1/2, some "
         "unregistered by the admin endpoint) x 1-3 HTTP publishes (QoS 0/1, rarely 2) on a real loopback broker; "
         "sess = one QoS-1 subscriber x publish/PUBACK/await-retransmission/quiet schedules under the real 200 ms ticker; "
